@@ -310,6 +310,8 @@ static void op_c01_verify(Exec& x, const Json& op, int)
 	if (c.exit_code != 0 || !tags_named(ctags, "error").empty() || !tags_named(ctags, "parity_error").empty())
 		x.violation("C01", "check-after-fix", strf("check after fix exit=%d errors=%zu parity_errors=%zu damage=%s", c.exit_code, tags_named(ctags, "error").size(), tags_named(ctags, "parity_error").size(), dmg.c_str()));
 	x.out.nontrivial = x.vars["c01_damaged_blocks"].i > 0;
+	++x.out.cases;
+	if (x.out.nontrivial) ++x.out.nontrivial_cases;
 	if (x.out.nontrivial) x.probe("c01.runs_with_block_damage");
 	if ((uint64_t)x.vars["c01_worst_stripe"].i == (uint64_t)x.sb.cfg.np) x.probe("c01.stripe_at_full_budget");
 	Json s = Json::obj();
